@@ -13,7 +13,7 @@ Log(rec) == hist' = Append(hist, rec)
 GenInit == Init /\ hist = << [a |-> "init", origin0 |-> origin] >>
 
 \* keep walks busy with requests: at most two consecutive environment steps
-EnvRun == IF Len(hist) >= 2 THEN hist[Len(hist)].a \in {"shift", "evict", "ochange"} /\ hist[Len(hist) - 1].a \in {"shift", "evict", "ochange"}
+EnvRun == IF Len(hist) >= 2 THEN hist[Len(hist)].a \in {"shift", "evict", "ochange", "unlink"} /\ hist[Len(hist) - 1].a \in {"shift", "evict", "ochange", "unlink"}
           ELSE FALSE
 
 GenNext ==
@@ -23,6 +23,7 @@ GenNext ==
           Reply(x, s, st, contacts[x].leader /\ contacts[x].kind = "get") /\ Log(Rec("reply", contacts[x].oc, contacts[x].r, contacts[x].kind, "", s, st, 0, "", ""))
     \/ \E d \in 1..3 : ~EnvRun /\ Shift(d) /\ Log(Rec("shift", 0, 0, "", "", 0, FALSE, d, "", ""))
     \/ \E r \in Res : ~EnvRun /\ Evict(r) /\ Log(Rec("evict", 0, r, "", "", 0, FALSE, 0, "", ""))
+    \/ \E r \in Res, w \in 1..4 : ~EnvRun /\ Unlink(r) /\ Log(Rec("unlink", 0, r, "", "", 0, FALSE, 0, "", ""))
     \/ \E r \in Res, f \in GenForms, v \in GenVals :
           ~EnvRun /\ OriginChange(r, f, v) /\ Log(Rec("ochange", 0, r, "", "", 0, FALSE, 0, f, v))
     \/ \E c \in Clients : Disconnect(c) /\ Log(Rec("disconnect", c, 0, "", "", 0, FALSE, 0, "", ""))
